@@ -590,6 +590,43 @@ def e2e_job(job):
             elif not (got == value or rs.same(got, value)):
                 sub = "|eco-switch-via-settings-block" if (fam == "ES" and sid.endswith("_switch")) else ""
                 acc.fail("C17|%s|%s|readback-differs%s" % (fam, tn, sub), "e2e: read_setting(%r) = %r after writing %r" % (sid, got, value), case)
+            # every call in an event loop of its own (successive asyncio.run calls), keep-alive on / off: still exactly ONE write per
+            # write_setting reaches the inverter, and the value reads back
+            if j % 4 == seed % 4 and tn not in rs.GROUPS:
+                for keep in (True, False):
+                    inv = siminv.make_inverter(fam, tcp, T=1, R=1)
+                    inv.set_keep_alive(keep)
+                    _, sim = siminv.build_direct(dict(cfg), default=lambda a: mix(seed + 2, a) & 0xFFFF)
+                    world = World(ScriptedPeer(siminv.responder_for(inv, sim), [], default=("answer", 0.0)))
+                    value2 = nth_value(setting, (mix(seed, j) + 1) % size) if size else value
+                    acc.case()
+                    acc.nontrivial("e2e-loops", variant, sid, repr(value), tcp, keep)
+                    lcase = {"variant": variant, "setting": sid, "value": value if not isinstance(value, datetime) else value.isoformat(), "tcp": tcp, "e2e": True,
+                             "seed": seed, "loops": True, "keep": keep}
+                    res, now, bad = {}, 0.0, None
+                    steps = [("info", lambda: inv.read_device_info()), ("write", lambda: inv.write_setting(sid, value)), ("read", lambda: inv.read_setting(sid)),
+                             ("write", lambda: inv.write_setting(sid, value2)), ("read2", lambda: inv.read_setting(sid))]
+                    nwrites = []
+                    for name, fn in steps:
+                        lp = VLoop(world, start=now, max_time=now + 1e5)
+                        w0 = all_write_count(sim)
+                        o = lp.run(fn())
+                        now = lp.vtime
+                        lp.shutdown()
+                        if o.hang is not None or o.exc is not None:
+                            bad = (name, o.hang, o.exc)
+                            break
+                        res[name] = o.result
+                        if name == "write":
+                            nwrites.append(all_write_count(sim) - w0)
+                    if bad:
+                        acc.fail("C17|%s|%s|e2e|loops|%s-failed" % (fam, tn, bad[0]), "each call in its own event loop (keep-alive %s): %r %r" % (keep, bad[1], bad[2]), lcase)
+                        continue
+                    if any(n != 1 for n in nwrites):
+                        acc.fail("C17|%s|%s|e2e|loops|write-count" % (fam, tn), "each call in its own event loop (keep-alive %s): the inverter received %s write requests for the "
+                                 "two write_setting(%r, ...) calls, expected [1, 1]" % (keep, nwrites, sid), lcase)
+                    elif not (res["read"] == value or rs.same(res["read"], value)) or not (res["read2"] == value2 or rs.same(res["read2"], value2)):
+                        acc.fail("C17|%s|%s|e2e|loops|readback-differs" % (fam, tn), "read back %r / %r after writing %r / %r" % (res["read"], res["read2"], value, value2), lcase)
             # two writes of a one-byte setting back to back (no read in between) while a second master / the vendor app changed
             # the OTHER half of the shared register between them: the second write must keep what is there NOW
             if setting.size_ == 1:
